@@ -1,9 +1,11 @@
 """C03 — lane property: word-level mechanism theorems over Gen_dqstate (+ site lists) and the stress oracle."""
 import lanes
 import lanewords
+from props import c03_hlane
 
 PROPERTIES_FILE = "Properties/Properties_C03.v"
-COQ_DEPS = ["Proofs/Lane_iface.vo"] + ["Model/LaneWords.vo"]
+COQ_DEPS = ["Proofs/Lane_iface.vo"] + ["Model/LaneWords.vo"] + list(c03_hlane.COQ_DEPS)
+EXTRA_PROPERTIES_FILES = [c03_hlane.PROPERTIES_FILE]
 GEN_MODULES = ["Gen_dqstate", "Gen_lanesites", "Gen_once"]
 LEVEL = "proof"
 TRUSTED = [
@@ -15,13 +17,15 @@ TRUSTED = [
 TRUSTED += ["word-transition conformance (lib/lanewords.py, Model/LaneWords.v): every dq_state compare-and-swap attempt, single atomic "
             "operation and give-up recorded in the stress runs is judged against the generated Gen_dqstate body of its source line "
             "(parameter domains of lib/lanewords.py param_domain are trusted); it ties Gen_dqstate to the running code, it does not judge the property"]
+TRUSTED += ["hierarchy protocol part (Properties_C03_hlane.v): " + t for t in c03_hlane.TRUSTED]
 ASSUMPTIONS = ["the stress oracle explores the schedules the OS and the perturbation hook produce; absence of a failure there is not a proof"]
 
 
 def correspond(ctx):
     return lanes.merge([lanes.run_part("lanes", lambda c: lanes.run(c, "C03"), ctx),
-                        lanes.run_part("words", lambda c: lanewords.run(c, "C03"), ctx)])
+                        lanes.run_part("words", lambda c: lanewords.run(c, "C03"), ctx),
+                        lanes.run_part("hlane", c03_hlane.correspond, ctx)])
 
 
 def replay(ctx, obj):
-    return lanes.replay(ctx, obj)
+    return lanes.replay_parts(ctx, obj, {"lanes": lanes.replay, "hlane": c03_hlane.replay})
